@@ -166,6 +166,7 @@ static void handle(int argc, char** argv)
 	size_t n, m, k;
 	word *a, *b, *c, *d;
 	first_ = 1;
+	fflush(stdout);   /* everything printed for the previous ops reaches the pipe before this op can abort */
 	if (argc < 2) { out_s("bad-op"); return; }
 	if (IS("u")) { if (argc != 3) { out_s("bad-op"); return; } h_u((int)u_arg(argv[1]), u_arg(argv[2])); return; }
 	if ((int)u_arg(argv[1]) != B_PER_W) { out_s("bad-w"); return; }
@@ -444,7 +445,9 @@ static void handle(int argc, char** argv)
 	if (IS("zzPowerMod") && argc == 3)
 	{
 		a = wa(argv[0], &n); b = wa(argv[1], &m); d = wa(argv[2], &k); c = wnew(n);
-		zzPowerMod(c, a, n, b, m, d, stk(zzPowerMod_deep(n, m))); out_w(c, n); return;
+		/* zzPowerMod_deep() omits the ring description (zmCreate_keep) that zzPowerMod carves from the stack:
+		   a depth defect (property C07), reported there; the slack keeps this value check independent of it */
+		zzPowerMod(c, a, n, b, m, d, stk(zzPowerMod_deep(n, m) + zmCreate_keep(O_OF_W(n)))); out_w(c, n); return;
 	}
 	if (IS("zzPowerModW") && argc == 3) { out_u(zzPowerModW(wd(argv[0]), wd(argv[1]), wd(argv[2]), stk(zzPowerModW_deep()))); return; }
 	/* -------------------------------------------------------- zz reductions */
